@@ -6,6 +6,7 @@ import (
 	"go/constant"
 	"go/token"
 	"go/types"
+	"strings"
 
 	"golang.org/x/tools/go/ssa"
 )
@@ -222,6 +223,10 @@ func resultOf(c ssa.CallInstruction, idx int) ssa.Value {
 		return nil
 	}
 	if c.Common().Signature().Results().Len() == 1 {
+		// several values plumbed as one struct: component idx is field idx of the result
+		if st, isStruct := v.Type().Underlying().(*types.Struct); isStruct && st.NumFields() > 1 && idx < st.NumFields() && gp != nil && gp.inModFn(rawStaticCallee(c)) {
+			return structComponentUse(v, idx)
+		}
 		if idx == 0 {
 			return v
 		}
@@ -493,6 +498,12 @@ func sameValue(a, b ssa.Value) bool {
 	a, b = deref(a), deref(b)
 	if a == b {
 		return true
+	}
+	// the same component of the same struct-valued call result
+	if ca, ia, ok1 := componentOf(a); ok1 {
+		if cb, ib, ok2 := componentOf(b); ok2 && ca == cb && ia == ib {
+			return true
+		}
 	}
 	// two loads of the same cell
 	ua, ok1 := a.(*ssa.UnOp)
@@ -829,4 +840,234 @@ func derefFlow(v ssa.Value) ssa.Value {
 		v = st.Val
 	}
 	return v
+}
+
+// componentOf: v is field idx of the struct value that call c returned (read directly, or through
+// the local variable the result was assigned to).
+func componentOf(v ssa.Value) (ssa.Value, int, bool) {
+	v = strip(v)
+	var base ssa.Value
+	idx := -1
+	switch x := v.(type) {
+	case *ssa.Field:
+		base, idx = strip(x.X), x.Field
+	case *ssa.UnOp:
+		if x.Op != token.MUL {
+			return nil, 0, false
+		}
+		fa, ok := x.X.(*ssa.FieldAddr)
+		if !ok {
+			return nil, 0, false
+		}
+		idx = fa.Field
+		a, isA := fa.X.(*ssa.Alloc)
+		if !isA {
+			return nil, 0, false
+		}
+		sts := storesTo(a)
+		if len(sts) != 1 {
+			return nil, 0, false
+		}
+		base = strip(sts[0].val)
+	default:
+		return nil, 0, false
+	}
+	if ld, ok := base.(*ssa.UnOp); ok && ld.Op == token.MUL {
+		if a, isA := ld.X.(*ssa.Alloc); isA {
+			if sts := storesTo(a); len(sts) == 1 {
+				base = strip(sts[0].val)
+			}
+		}
+	}
+	if c, ok := base.(*ssa.Call); ok {
+		return c, idx, true
+	}
+	return nil, 0, false
+}
+
+// structComponentUse: some value that reads field idx of struct value v (nil if never read).
+func structComponentUse(v ssa.Value, idx int) ssa.Value {
+	var found ssa.Value
+	var scan func(x ssa.Value, depth int)
+	scan = func(x ssa.Value, depth int) {
+		if depth > 3 || found != nil || x.Referrers() == nil {
+			return
+		}
+		for _, ref := range *x.Referrers() {
+			switch y := ref.(type) {
+			case *ssa.Field:
+				if y.Field == idx {
+					found = y
+					return
+				}
+			case *ssa.Store:
+				if y.Val != x {
+					continue
+				}
+				if a, ok := y.Addr.(*ssa.Alloc); ok {
+					for _, r2 := range *a.Referrers() {
+						if fa, isFA := r2.(*ssa.FieldAddr); isFA && fa.Field == idx {
+							for _, r3 := range *fa.Referrers() {
+								if u, isU := r3.(*ssa.UnOp); isU && u.Op == token.MUL {
+									found = u
+									return
+								}
+							}
+						}
+						if ld, isLd := r2.(*ssa.UnOp); isLd && ld.Op == token.MUL {
+							scan(ld, depth+1)
+						}
+					}
+				}
+			case *ssa.ChangeType:
+				scan(y, depth+1)
+			}
+		}
+	}
+	scan(v, 0)
+	return found
+}
+
+// retResult: result i of a return statement; when the function returns its values as one struct
+// (data plumbing), the value put into field i of the returned struct literal.
+func retResult(ret *ssa.Return, i int) ssa.Value {
+	if i < len(ret.Results) {
+		if len(ret.Results) > 1 || i > 0 {
+			return ret.Results[i]
+		}
+		// single result: a struct literal standing for several values?
+		if v := structLitField(ret.Results[0], i); v != nil && ret.Parent() != nil && ret.Parent().Signature.Results().Len() == 1 && isMultiStruct(ret.Results[0]) {
+			return v
+		}
+		return ret.Results[i]
+	}
+	if len(ret.Results) == 1 {
+		if v := structLitField(ret.Results[0], i); v != nil {
+			return v
+		}
+	}
+	return ssa.NewConst(nil, types.Typ[types.UntypedNil])
+}
+
+func isMultiStruct(v ssa.Value) bool {
+	st, ok := v.Type().Underlying().(*types.Struct)
+	if !ok || st.NumFields() < 2 {
+		return false
+	}
+	// only structs declared in the module under analysis, and only unexported ones (plumbing)
+	if n, isN := v.Type().(*types.Named); isN {
+		o := n.Obj()
+		if o == nil || o.Pkg() == nil || !strings.HasPrefix(o.Pkg().Path(), modPath) || o.Exported() {
+			return false
+		}
+		return isPlumbingStruct(n)
+	}
+	return false
+}
+
+var plumbingMemo = map[string]bool{}
+
+// isPlumbingStruct: an unexported struct type whose only role is to carry the results of ONE
+// function: it is the result type of exactly one module function and occurs in no parameter
+// list and in no field of another type.
+func isPlumbingStruct(n *types.Named) bool {
+	if gp == nil {
+		return false
+	}
+	key := n.Origin().Obj().Pkg().Path() + "." + n.Origin().Obj().Name()
+	if v, ok := plumbingMemo[key]; ok {
+		return v
+	}
+	same := func(t types.Type) bool {
+		for {
+			if p, isP := t.(*types.Pointer); isP {
+				t = p.Elem()
+				continue
+			}
+			if sl, isS := t.(*types.Slice); isS {
+				t = sl.Elem()
+				continue
+			}
+			break
+		}
+		m, isN := t.(*types.Named)
+		return isN && m.Origin().Obj() == n.Origin().Obj()
+	}
+	asResult, elsewhere := map[types.Object]bool{}, false
+	sigOf := func(fn *types.Func) {
+		sig, ok := fn.Type().(*types.Signature)
+		if !ok {
+			return
+		}
+		for i := 0; i < sig.Results().Len(); i++ {
+			if same(sig.Results().At(i).Type()) {
+				if sig.Results().Len() != 1 {
+					elsewhere = true
+				}
+				asResult[fn.Origin()] = true
+			}
+		}
+		for i := 0; i < sig.Params().Len(); i++ {
+			if same(sig.Params().At(i).Type()) {
+				elsewhere = true
+			}
+		}
+	}
+	for _, pk := range gp.pkgs {
+		sc := pk.Types.Scope()
+		for _, name := range sc.Names() {
+			switch o := sc.Lookup(name).(type) {
+			case *types.Func:
+				sigOf(o)
+			case *types.TypeName:
+				if nt, isN := o.Type().(*types.Named); isN {
+					for i := 0; i < nt.NumMethods(); i++ {
+						sigOf(nt.Method(i))
+					}
+				}
+				if st, isS := o.Type().Underlying().(*types.Struct); isS {
+					for i := 0; i < st.NumFields(); i++ {
+						if same(st.Field(i).Type()) {
+							elsewhere = true
+						}
+					}
+				}
+			}
+		}
+	}
+	v := len(asResult) == 1 && !elsewhere
+	plumbingMemo[key] = v
+	return v
+}
+
+// structLitField: v is a struct value built by a composite literal; the value stored to field i.
+func structLitField(v ssa.Value, i int) ssa.Value {
+	if !isMultiStruct(v) {
+		return nil
+	}
+	v = strip(v)
+	u, ok := v.(*ssa.UnOp)
+	if !ok || u.Op != token.MUL {
+		return nil
+	}
+	a, ok := u.X.(*ssa.Alloc)
+	if !ok {
+		return nil
+	}
+	var out ssa.Value
+	for _, ref := range *a.Referrers() {
+		fa, isFA := ref.(*ssa.FieldAddr)
+		if !isFA || fa.Field != i {
+			continue
+		}
+		for _, r2 := range *fa.Referrers() {
+			if st, isSt := r2.(*ssa.Store); isSt && st.Addr == ssa.Value(fa) {
+				if out != nil {
+					return nil
+				}
+				out = st.Val
+			}
+		}
+	}
+	return out
 }
